@@ -31,7 +31,6 @@ func receiveLemma(p string, eventsMayFail bool) {
 	h.Env.EventsMayFail(eventsMayFail)
 	h.Env.BeginTx()
 	ok, panicked, m := h.callUser(hReceiveMessage, c)
-	ctx := h.Env.Ctx
 	verifrt.ProbeAttestation("m_message", "m_attestation", "att", m.Message, m.Attestation, h.Att, maxSigs)
 
 	// ---- specification, from the reference decoder ----
@@ -67,21 +66,32 @@ func receiveLemma(p string, eventsMayFail bool) {
 		verifrt.Assert("C03/receive/conditions-imply-accept", verifrt.Implies(verifrt.All(spec, !eventsMayFail), verifrt.Any(ok, mintFailed)))
 		verifrt.Assert("C03/receive/no-panic", !panicked)
 	}
+	if p == "C01" {
+		verifrt.Assert("C01/receive/accept-implies-valid-attestation", verifrt.Implies(ok, attOK))
+		verifrt.Assert("C01/receive/valid-attestation-not-rejected-by-verifier", verifrt.Implies(verifrt.All(spec, !eventsMayFail), verifrt.Any(ok, mintFailed)))
+	}
 	if p == "C12" || p == "" {
 		verifrt.Assert("C12/receive/paused-blocks", verifrt.Implies(h.SendPaused, !ok))
 		verifrt.Assert("C12/receive/burn-pause-blocks-mint", verifrt.Implies(verifrt.All(h.BurnPaused, ok), nMints == 0))
 		verifrt.Assert("C12/receive/burn-pause-allows-plain", verifrt.Implies(verifrt.All(header, !toModule, !eventsMayFail), ok))
 	}
 	if p == "C02" || p == "" {
-		after := h.K.GetUsedNonce(ctx, types.Nonce{SourceDomain: r.Src, Nonce: r.Nonce})
+		own := h.usedKey(r.Src, r.Nonce)
 		verifrt.Assert("C02/receive/accept-implies-unused-before", verifrt.Implies(ok, !used))
-		verifrt.Assert("C02/receive/accept-marks-used", verifrt.Implies(ok, after))
-		// a second arbitrary pair: its used-status can only change if it is the pair of this message
+		// the entry the module's own reader consults for this pair is written (with a present value)
+		marked := false
+		for i := range ws {
+			marked = verifrt.Any(marked, verifrt.All(bytes.Equal(ws[i].Key, own), !ws[i].Delete))
+		}
+		verifrt.Assert("C02/receive/accept-marks-used", verifrt.Implies(ok, marked))
+		// a second arbitrary pair: nothing its reader consults is written unless it is this message's pair
 		d2, n2 := verifrt.NondetU32("other_domain"), verifrt.NondetU64("other_nonce")
-		before2 := verifrt.All(h.UsedSet, h.UsedDomain == d2, h.UsedNonce == n2)
-		after2 := h.K.GetUsedNonce(ctx, types.Nonce{SourceDomain: d2, Nonce: n2})
-		verifrt.Assert("C02/receive/used-stays-used", verifrt.Implies(verifrt.All(ok, before2), after2))
-		verifrt.Assert("C02/receive/marks-only-its-own-pair", verifrt.Implies(verifrt.All(ok, !before2, after2), verifrt.All(d2 == r.Src, n2 == r.Nonce)))
+		verifrt.Assert("C02/receive/marks-only-its-own-pair", verifrt.Implies(verifrt.All(ok, wrote(ws, h.usedKey(d2, n2))), verifrt.All(d2 == r.Src, n2 == r.Nonce)))
+		deleted := false
+		for i := range ws {
+			deleted = verifrt.Any(deleted, ws[i].Delete)
+		}
+		verifrt.Assert("C02/receive/used-stays-used", verifrt.Implies(ok, !deleted))
 	}
 	if p == "C04" || p == "" {
 		if ok {
